@@ -3422,7 +3422,7 @@ func (vm *Thread) opLessThanEqualFloat() {
 	right := vm.popGet()
 	left := vm.peek()
 
-	l := left.AsSmallInt()
+	l := left.AsFloat()
 	result, _ := l.LessThanEqualVal(right)
 	vm.replace(result)
 }
@@ -3446,7 +3446,7 @@ func (vm *Thread) opLessThanFloat() {
 	right := vm.popGet()
 	left := vm.peek()
 
-	l := left.AsSmallInt()
+	l := left.AsFloat()
 	result, _ := l.LessThanVal(right)
 	vm.replace(result)
 }
@@ -3766,7 +3766,7 @@ func (vm *Thread) opSubtractInt() {
 func (vm *Thread) opSubtractFloat() {
 	right := vm.popGet()
 	left := vm.peek()
-	l := left.AsSmallInt()
+	l := left.AsFloat()
 	result, _ := l.SubtractVal(right)
 	vm.replace(result)
 }
